@@ -41,11 +41,20 @@ def cargo_env():
     return {"RUSTUP_TOOLCHAIN": TOOLCHAIN, "CARGO_NET_OFFLINE": "true"}
 
 
+REPO = os.environ.get("VERIF_REPO", "/repo")   # the tree under verification (a snapshot for background runs)
+
+
 def build_harness():
     os.makedirs(WORK, exist_ok=True)
+    # the manifest is generated so that a background run can point the path dependencies at a snapshot
+    tmpl = open(os.path.join(HARNESS, "Cargo.toml.in")).read().replace("@REPO@", REPO)
+    man = os.path.join(HARNESS, "Cargo.toml")
+    if not os.path.exists(man) or open(man).read() != tmpl:
+        with open(man, "w") as f:
+            f.write(tmpl)
     lock = os.path.join(HARNESS, "Cargo.lock")
     if not os.path.exists(lock):
-        shutil.copy("/repo/Cargo.lock", lock)
+        shutil.copy(os.path.join(REPO, "Cargo.lock"), lock)
     rc, out = sh(["cargo", "build", "--offline"], env=cargo_env(), cwd=HARNESS, timeout=1800)
     if rc != 0:
         raise ToolError("harness build failed:\n" + out[-4000:])
